@@ -46,7 +46,7 @@ AcceptKL(f, k, l) ==
     [] f = "nsa"  -> k = "a"
     [] f = "nsp1" -> k \in {"a", "c"}   \* NSName(ns1/*): the keys a and c live in namespace ns1
     [] f = "nsp2" -> k \in {"b", "e"}   \* NSName(ns2/*)
-    [] f = "nnpa" -> k = "a"            \* NSName(*/a): a name in any namespace (key a is ns1/a)
+    [] f = "nnpa" -> k \in {"a", "d"}   \* NSName(*/a): a name in any namespace (key a is ns1/a, key d is the cluster-scoped object a)
     [] f = "nnpb" -> k = "b"            \* NSName(*/b)
     [] f = "sel0" -> FALSE      \* LabelSelector(nil): labels.Nothing()
     [] f = "selall" -> TRUE     \* Selector(labels.NewSelector()): no requirement
